@@ -13,7 +13,12 @@ B3  the shipped service files, batches of near-identical requests (a base + its 
     transceiver power, reference power, direction flag, channel count, spacing, include list) and seeded random
     batches, in original, reversed and seeded-shuffled order; every response entry is compared with the run of its own
     unit alone (unit = requests the user cannot tell apart - same resolved parameters - or tied by a synchronization
-    vector; an entry that mixes two units has no solo counterpart and violates Independent).
+    vector; an entry that mixes two units has no solo counterpart and violates Independent).  The first ordering is the
+    reference every other ordering is compared with (OrderIndependent - the only way to judge members of a
+    synchronization vector, which cannot be computed alone); the last run of every batch builds the requests through
+    the API (PathRequest(**params)) instead of the JSON loader; synchronization batches with several feasible disjoint
+    combinations; batches under non-default process-wide SimParams (GGN on a few channels of the comb), with
+    SimParamsFrozen judged like NetworkFrozen.
 """
 import copy
 import random
@@ -23,7 +28,8 @@ from harness.core import Machinery
 from harness.gnpy_util import EX, TD
 from harness import planning_util as pu
 
-CLAUSES16 = ('Independent', 'ModelAgrees', 'OnlySlotsDependOnHistory', 'NetworkFrozen')
+CLAUSES16 = ('Independent', 'ModelAgrees', 'OnlySlotsDependOnHistory', 'NetworkFrozen', 'SimParamsFrozen',
+             'OrderIndependent')
 
 
 # ---------------------------------------------------------------------------------------------- pool concretisation
@@ -112,7 +118,10 @@ def trace_spec_selftest(chk, t0):
              ('ModelAgrees', lambda t: t['ent'][k]['c16'].update(exp='NO_SPECTRUM')),
              ('OnlySlotsDependOnHistory', lambda t: (t['ent'][0]['c16']['cur'].update(nm=[[123, 4]]),
                                                      t['ent'][0]['c16']['solo'].update(nm=[[7, 4]]))),
-             ('NetworkFrozen', lambda t: t['netA'].__setitem__(0, 1))]
+             ('NetworkFrozen', lambda t: t['netA'].__setitem__(0, 1)),
+             ('SimParamsFrozen', lambda t: t['simA'].__setitem__(0, 1)),
+             ('OrderIndependent', lambda t: t['ent'][k]['c16'].update(
+                 hasRef=True, ref=dict(t['ent'][k]['c16']['cur'], found=True, route=['elsewhere'])))]
     traces = [base]
     for clause, f in cases:
         t = copy.deepcopy(base)
@@ -190,33 +199,49 @@ def reorder(data, order):
     return d
 
 
-def b3_file(chk, bench, label, data, orders, solo_cache):
+def b3_file(chk, bench, label, data, orders, solo_cache, api=True):
+    """the batch in several orderings (the first one is the reference) and, last, built through the API; every entry is
+    compared with (solo) the run of its unit alone and (ref) the same entry of the reference ordering"""
     traces, runs = [], {}
-    for oname, order in orders:
+    ref = None
+    todo = [(oname, order, 'json') for oname, order in orders]
+    if api:
+        todo.append(('api', orders[0][1], 'api'))
+    lab = label.split('-')[0].split('@')[0]
+    for oname, order, via in todo:
         d = reorder(data, order)
         name = f'{label}:{oname}'
-        run = pu.run_batch(bench, d, name, want_csv=False)
+        run = pu.run_batch(bench, d, name, want_csv=False, via=via)
         chk.case(name, nontrivial=len(order) > 1)
         if run.exc:
-            chk.violation(f'B3|exception-in-planning|{label.split("-")[0]}|{run.exc.split(":")[0]}',
+            if run.refused and ref is None and via == 'json':
+                chk.cov['b3_batches_refused_by_the_code'] = chk.cov.get('b3_batches_refused_by_the_code', 0) + 1
+                return []                  # ServiceError / DisjunctionError for the batch as written: nothing to compare
+            kind = 'refusal-depends-on-order-or-entry-path' if run.refused else 'exception-in-planning'
+            chk.violation(f'B3|{kind}|{lab}|{via}|{run.exc.split(":")[0]}',
                           dict(name=name, exception=run.exc, tb=run.tb, requests=d['path-request']))
             continue
+        if ref is None:
+            ref = {frozenset(x['e']['ids']): pu.core_of(x) for x in run.entries}
         units = pu.units_by_key(run.inputs, d)
         unit_of = {i: k + 1 for k, u in enumerate(units) for i in u}
         c16 = {}
         for k, ent in enumerate(run.entries):
             u = units[unit_of[ent['e']['ids'][0]] - 1] if ent['e']['ids'][0] in unit_of else ent['e']['ids']
             key = (label, tuple(u))
+            if len(u) == len(run.inputs) and via == 'json':
+                solo_cache.setdefault(key, run)            # the unit is the whole batch: this run IS its run alone
             if key not in solo_cache:
                 solo_cache[key] = pu.run_batch(bench, restrict(d, u), f'{label}:solo:{"+".join(u)}', want_csv=False)
             srun = solo_cache[key]
             solo = None
             if srun.exc:
-                chk.violation(f'B3|exception-in-planning|{label.split("-")[0]}|{srun.exc.split(":")[0]}',
+                chk.violation(f'B3|exception-in-planning|{lab}|json|{srun.exc.split(":")[0]}',
                               dict(name=srun.name, exception=srun.exc, tb=srun.tb, requests=srun.data['path-request']))
             else:
                 solo = next((pu.core_of(x) for x in srun.entries if set(x['e']['ids']) == set(ent['e']['ids'])), None)
-            c16[k] = dict(exp='', solo=solo, unit=unit_of.get(ent['e']['ids'][0], 0))
+            c16[k] = dict(exp='', solo=solo, unit=unit_of.get(ent['e']['ids'][0], 0),
+                          ref=ref.get(frozenset(ent['e']['ids'])))
         traces.append(pu.trace_of(run, c16=c16, j19=False))
         runs[name] = run
     return [(t, runs[t['name']], data, label) for t in traces]
@@ -236,7 +261,8 @@ def b3_judge(chk, jobs):
             what = 'batch' if ent is None else ('sync' if any(
                 set(ent['e']['ids']) & set(s['svec']['request-id-number']) for s in data.get('synchronization', [])) else
                 ('aggregated' if len(ent['e']['ids']) > 1 else 'single'))
-            chk.violation(f'B3|{clause}|{label.split("-")[0]}|{what}', dict(
+            via = 'api' if t['name'].endswith(':api') else 'json'
+            chk.violation(f'B3|{clause}|{label.split("-")[0].split("@")[0]}|{what}|{via}', dict(
                 trace=t['name'], step=step, clause=clause, entry=ent,
                 net_changed=[u for u, a, b in zip(run.net_uids, run.netB, run.netA) if a != b][:10]))
     for t, _, _, _ in jobs[-1:]:
@@ -257,6 +283,9 @@ def shipped(tier):
 
 
 def run(chk):
+    import time
+    t0 = time.time()
+    phase = chk.cov.setdefault('phase_wall_s', {})
     # ---- B1
     base = (tlc.SPEC / 'MC_Planning.cfg').read_text()
     # all clauses as invariants; the same exhaustive run prints one line per history for B2 (Emit)
@@ -265,13 +294,14 @@ def run(chk):
     chk.exhaustive = True
     bare = '\n'.join(ln for ln in base.splitlines() if not ln.startswith(('INVARIANT', 'PROPERTY')))
     for clause, kind in (('Independent', 'INVARIANT'), ('OnlySlotsDependOnHistory', 'INVARIANT'),
-                         ('NetworkFrozen', 'PROPERTY')):
+                         ('NetworkFrozen', 'PROPERTY'), ('SimParamsFrozen', 'PROPERTY')):
         rl = tlc.run('MC_Planning', cfg_text=bare.replace('Leaky = FALSE', 'Leaky = TRUE') + f'\n{kind} {clause}\n',
                      timeout=600, tag='c16-leaky')
         chk.add_mc(f'MC_Planning Leaky=TRUE must violate {clause}', rl, require_ok=False)
         if rl.violated != clause:
             raise Machinery(f'vacuity: the defective model (Leaky) does not violate {clause}: {rl.error}')
-    chk.cov['clauses_shown_non_vacuous'] = ['Independent', 'OnlySlotsDependOnHistory', 'NetworkFrozen']
+    chk.cov['clauses_shown_non_vacuous'] = ['Independent', 'OnlySlotsDependOnHistory', 'NetworkFrozen', 'SimParamsFrozen']
+    phase['B1'] = round(time.time() - t0, 1)
     # ---- B2
     hists = sorted(r.emitted, key=lambda h: (len(h['order']), h['order']))
     if len(hists) != 1956:
@@ -280,7 +310,7 @@ def run(chk):
         rng = random.Random(chk.seed)
         short = [h for h in hists if len(h['order']) <= 2]
         long_ = [h for h in hists if len(h['order']) > 2]
-        sel = short + rng.sample(long_, 48)
+        sel = short + rng.sample(long_, 24)
         n = b2(chk, 'meshV2', sel)
         chk.cov['b2_histories'] = {'meshV2': n}
     else:
@@ -288,9 +318,10 @@ def run(chk):
         tt = [h for h in hists if len(h['order']) <= 3] + rng.sample([h for h in hists if len(h['order']) > 3], 300)
         chk.cov['b2_histories'] = {'meshV2': b2(chk, 'meshV2', hists), 'testTopology': b2(chk, 'testTopology', tt)}
     chk.cov['model_histories_with_slot_dependence'] = sum(1 for h in hists if not all(h['sameAsSolo']))
+    phase['B1+B2'] = round(time.time() - t0, 1)
     # ---- B3
     rng = random.Random(chk.seed + 16)
-    nshuf = 2 if chk.tier == 'quick' else 8
+    nshuf = 1 if chk.tier == 'quick' else 8
     cache = {}
     jobs = []
     for bench, label, data in shipped(chk.tier):
@@ -314,6 +345,24 @@ def run(chk):
                     rng.shuffle(o)
                     orders.append((f'shuffled-{k}', o))
             jobs += b3_file(chk, bench, f'{label}@{bench}', {'path-request': reqs}, orders, cache)
+    # synchronization vectors with several feasible disjoint combinations: every ordering of the path-request list
+    for bench in (['meshV2'] if chk.tier == 'quick' else ['meshV2', 'testTopology']):
+        for label, data in pu.sync_batches(bench):
+            n = len(data['path-request'])
+            orders = [('original', list(range(n))), ('reversed', list(reversed(range(n))))]
+            if n > 2:
+                for k in range(1 if chk.tier == 'quick' else 4):
+                    o = list(range(n))
+                    rng.shuffle(o)
+                    orders.append((f'shuffled-{k}', o))
+            jobs += b3_file(chk, bench, f'{label}@{bench}', data, orders, cache)
+    # non-default process-wide simulation parameters (GGN evaluated on a few channels of the propagated comb): batches
+    # mixing channel counts (the spacing / channel-count variants of a base request)
+    for bench in (['meshV2+island@ggn'] if chk.tier == 'quick' else ['meshV2+island@ggn', 'meshV2+island@ggnss']):
+        for label, reqs in pu.near_identical(bench)[:2 if chk.tier == 'quick' else 3]:
+            n = len(reqs)
+            orders = [('original', list(range(n))), ('reversed', list(reversed(range(n))))]
+            jobs += b3_file(chk, bench, f'{label}@{bench}', {'path-request': reqs}, orders, cache, api=False)
     # seeded random batches (every blocking reason, fixed / multi slots, aggregation), each in several orders
     nrand = 3 if chk.tier == 'quick' else 32
     for b in range(nrand):
@@ -326,7 +375,9 @@ def run(chk):
             rng.shuffle(o)
             orders.append((f'shuffled-{k}', o))
         jobs += b3_file(chk, bench, f'seeded-{b}', {'path-request': reqs}, orders, cache)
+    phase['..B3 runs'] = round(time.time() - t0, 1)
     chk.cov['b3_batches'] = b3_judge(chk, jobs)
+    phase['..B3 judged'] = round(time.time() - t0, 1)
     # ---- pipeline composition (spec/Gnpy.tla): stage-by-stage traces of real runs judged by Trace_Gnpy:
     # only Design changes settings, only Assign changes occupancy, SimParams untouched, blocked requests hold nothing
     from harness import pipeline
@@ -352,6 +403,13 @@ def run(chk):
     chk.assume('solo run of a request = the batch restricted to its unit (requests with the same resolved parameters - the '
                'only ones that may be aggregated - or tied to it by a synchronization vector), in the same relative order, '
                'on a freshly designed network')
+    chk.assume('two orderings of one batch (synchronization vectors untouched) must give every request the same result: both '
+               'equal the result computed alone; a batch the code refuses (ServiceError / DisjunctionError) is not judged, a '
+               'refusal that depends on the ordering is')
+    chk.assume('requests built through the API (PathRequest(**params) with the loader\'s resolved values, optional keys not '
+               'given left to the class defaults) are the same requests: they are compared with the same solo runs')
+    chk.assume('GGN simulation parameters: bidirectional automatic-mode requests are left out (their reverse propagation '
+               'has no roll-off and raises TypeError alone as well as in a batch)')
     chk.assume('network settings are observed through json_io.network_to_json (one CRC per exported element)')
     chk.assume('bench equipment = shipped eqpt_config.json plus two library transceiver types (VerifDense 25 GHz comb, '
                'VerifHard unreachable OSNR thresholds); no gnpy code is modified')
